@@ -76,12 +76,13 @@ class Ctx:
 
     # -------------------------------------------------------------- finish
     def finish(self, level, explanation, trusted_base, checker_cmd, samples_n=8):
-        os.makedirs(os.path.join(VERIF, "evidence"), exist_ok=True)
-        os.makedirs(os.path.join(VERIF, "violations"), exist_ok=True)
+        OUT = os.environ.get("VERIF_OUT") or VERIF   # scratch-copy self-tests write elsewhere
+        os.makedirs(os.path.join(OUT, "evidence"), exist_ok=True)
+        os.makedirs(os.path.join(OUT, "violations"), exist_ok=True)
         # clear stale replay files of this property
-        for f in os.listdir(os.path.join(VERIF, "violations")):
+        for f in os.listdir(os.path.join(OUT, "violations")):
             if f.startswith(self.pid + "-"):
-                os.remove(os.path.join(VERIF, "violations", f))
+                os.remove(os.path.join(OUT, "violations", f))
         n_ob = len(self.obligations)
         n_ok = sum(1 for o in self.obligations if o["ok"])
         samples = []
@@ -134,12 +135,12 @@ class Ctx:
             "wall_s": round(time.time() - self.t0, 2),
             "violations": len(self.violations),
         }
-        with open(os.path.join(VERIF, "evidence", f"{self.pid}.json"), "w") as fh:
+        with open(os.path.join(OUT, "evidence", f"{self.pid}.json"), "w") as fh:
             json.dump(ev, fh, indent=1)
         for k in self.known_hit:
             print(f"KNOWN-FINDING: property={self.pid} {k['what']}")
         for i, v in enumerate(self.violations):
-            rp = os.path.join(VERIF, "violations", f"{self.pid}-{i}.json")
+            rp = os.path.join(OUT, "violations", f"{self.pid}-{i}.json")
             with open(rp, "w") as fh:
                 json.dump(v, fh, indent=1)
             print(f"  rule {v['rule']} :: {v['instance']}\n    at {v['where']}\n    {v['detail']}  [configs: {','.join(str(c) for c in v['configs'])}]")
